@@ -502,6 +502,12 @@ class DeepCopyMethod(MethodDescriptor):
             return self
         new = self.__class__.__new__(self.__class__)
         for attr, value in self.__dict__.items():
+            if attr == "__spec_class_initializing__":
+                # A copy taken while the original is still being constructed
+                # (e.g. in `__post_init__`) is a finished object: it must not
+                # inherit the "initialisation in progress" marker, which would
+                # switch off its frozen guard for good.
+                continue
             if inspect.ismethod(value) and value.__self__ is self:
                 # A method bound to this instance (copying it would recurse
                 # back into this instance) is re-bound to the copy.
